@@ -199,6 +199,9 @@ def c01(tier):
             t2 = ['TRYUNTIL_RMW' if timed else 'TRY_RMW', 'LOCK_RMW']
             t3 = ['LOAD', 'STORE'] if w in ('guarded', 'guarded_opt') else ['LOCK_RMW']
             qs.append(gq(f'{w}_{m}_3t_R{R}', w, m, [t1, t2, t3], R, timeout=to))
+            if w in ('guarded', 'guarded_opt'):
+                # every whole-object operation of every wrapper x mutex type appears at least once (operator= was missing: seed C01-s2)
+                qs.append(gq(f'{w}_{m}_assign_R{R}', w, m, [['LOCK_RMW', 'ASSIGN'], ['ASSIGN', 'LOAD'], ['TRY_RMW', 'STORE']], R, timeout=to))
     for m in MUTEXES:
         qs.append(gq(f'ordered_{m}_3t_R{R}', 'ordered_guarded', m, [['MODIFY', 'LOAD'], ['STORE', 'MODIFY'], ['MODIFY', 'ASSIGN']], R, timeout=to))
         qs.append(gq(f'ordered_{m}_store_store_R{R}', 'ordered_guarded', m, [['STORE', 'LOAD'], ['STORE', 'ASSIGN'], ['ASSIGN', 'LOAD']], R, timeout=to))
@@ -347,7 +350,7 @@ def c15(tier):
         qs.append(aq('atomic_cas_cas_load_3t', 'atomic_guarded', [['CAS'], ['CAS'], ['LOAD']], 3))
         qs.append(aq('atomic_assign_xchg_3t', 'atomic_guarded', [['ASSIGN'], ['XCHG'], ['LOAD']], 3))
         qs.append(aq('guarded_load_store', 'guarded', [['STORE', 'LOAD'], ['ASSIGN', 'LOAD']], 3))
-        qs.append(aq('guarded_opt_load_store', 'guarded_opt', [['LOAD', 'STORE'], ['STORE', 'LOAD']], 3))
+        qs.append(aq('guarded_opt_load_store', 'guarded_opt', [['LOAD', 'STORE'], ['ASSIGN', 'LOAD']], 3))
         qs.append(aq('ordered_load_store', 'ordered_guarded', [['STORE', 'LOAD'], ['LOAD', 'ASSIGN']], 3))
         qs.append(mk('atomic_seq4', 'c15_atomic.cpp', [], 1, seq=['vp_seq'], cover=1, defines=seqd('atomic_guarded', ['STORE', 'CAS', 'XCHG', 'LOAD']), unwind=2, unwindset=LIN_UNWIND, extra_flags=['-DVP_HN=4']))
         qs.append(mk('atomic_seq4b', 'c15_atomic.cpp', [], 1, seq=['vp_seq'], cover=1, defines=seqd('atomic_guarded', ['CAS', 'LOAD', 'CAS', 'XCHG']), unwind=2, unwindset=LIN_UNWIND, extra_flags=['-DVP_HN=4']))
@@ -380,8 +383,9 @@ def rq(name, tl, rounds, order=None, defines=(), unwind=6, **kw):
     cover = 0
     for t in tl: cover |= {'A': 1, 'B': 2, 'C': 4, 'D': 4}[t]
     kw.setdefault('timeout', 900)
+    opts = kw.pop('opts_override', None) or {'yield_blocks': False}
     return mk(name, 'c05_rcu.cpp', threads, rounds, order=order, final='vp_final', cover=cover, defines=list(defines),
-              opts={'yield_blocks': False}, unwind=unwind, checks='pointer', **kw)
+              opts=opts, unwind=unwind, checks='pointer', **kw)
 
 
 def c05(tier):
@@ -573,6 +577,8 @@ def c20(tier):
         qs.append(tq('ordered_throw_modify_read', 'ordered_guarded', [['MODIFY', 'READ'], ['READ', 'MODIFY']], 3))
         qs.append(tq('guarded_throw_store_load', 'guarded', [['STORE', 'LOAD'], ['ASSIGN', 'LOAD']], 3))
         qs.append(tq('atomic_throw_xchg_cas', 'atomic_guarded', [['XCHG', 'LOAD'], ['CAS', 'STORE']], 3))
+        qs.append(tq('atomic_throw_assign_ordered_store', 'atomic_guarded', [['ASSIGN', 'XCHG'], ['LOAD', 'CAS']], 3))
+        qs.append(tq('ordered_throw_store_load', 'ordered_guarded', [['STORE', 'LOAD'], ['ASSIGN', 'MODIFY']], 3))
     else:
         qs.append(mk('lr_throw_writer_reader_R4', 'c20_throw.cpp', [Wt, Rd], 4, cover=3, **dict(lr, timeout=3000)))
         for od in orders(3, 'all'):
@@ -725,3 +731,10 @@ NOT_APPLICABLE = {
            "operations) [measured]; <future> itself had to be replaced by a stub (its state lives behind libstdc++.so entry points). A harness and the tree/future models "
            "exist (harness/c18_delayedobj.cpp, engine/vpmodels.h) but produce no verdict inside any budget tried, so the property is not claimed.",
 }
+
+
+# rcu publication under the happens-before monitor (part of C07): a traversing reader against one pushing writer
+def _c07_rcu(tier):
+    o = {'hb': True, 'yield_blocks': False}
+    big = ['-DVP_HB_K=20', '-DVP_HB_M=14']
+    return [rq('hb_rcu_reader_pusher_R2', 'AD', 2, defines=['NINIT=1'], opts_override=o, extra_flags=big, timeout=1500 if tier == 'quick' else 3000)]
